@@ -110,6 +110,39 @@ def search(payload):
                     sat = _satisfiable(mode, p)
                     if sat:
                         fails.append({"p": repr(p), "generate": mode, "what": "a satisfiable request gave an empty stream"})
+    # beyond the small bounds: a member set covering +-100000, the 4300th value of float-backed streams, 9 nested any_p
+    nest_any = is_int_p
+    for _ in range(9):
+        nest_any = any_p(nest_any)
+    for mode, genf, p, count in (("true", generate_true, not_in_p(*range(-100_000, 100_001)), 3), ("false", generate_false, in_p(*range(-100_000, 100_001)), 3),
+                                 ("true", generate_true, nest_any, 2), ("true", generate_true, ge_p(0.5), 4300), ("true", generate_true, le_p(-2.5), 4300),
+                                 ("true", generate_true, is_float_p, 4300), ("false", generate_false, is_none_p, 12500), ("true", generate_true, is_int_p, 400),
+                                 ("false", generate_false, ge_p(2), 400)):
+        random.seed(int(payload["seed"]) + 77)
+        try:
+            it = genf(p)
+        except Exception as e:  # noqa: BLE001
+            fails.append({"p": repr(p)[:120], "generate": mode, "position": 0, "what": f"internal error {type(e).__name__}: {e}", "line_events": 0})
+            continue
+        if count <= 3:
+            for i in range(count):
+                kind, v, lines = g.pull(it, budget_lines=2_000_000)
+                n += 1
+                if kind in ("value", "slow"):
+                    continue
+                if kind == "stop" and i > 0:
+                    break                       # a finite stream that has delivered
+                fails.append({"p": repr(p)[:120], "generate": mode, "position": i,
+                              "what": ("spins: no value and no end of stream within the line-event budget" if kind == "spin" else
+                                       "a satisfiable request gave an empty stream" if kind == "stop" else f"internal error {v}"), "line_events": lines})
+                break
+        else:
+            vals, err = g.take(it, count, seconds=60.0)
+            n += len(vals)
+            if err and err != "timeout":
+                fails.append({"p": repr(p)[:120], "generate": mode, "position": len(vals), "what": f"internal error {err}", "line_events": 0})
+            elif err == "timeout" and len(vals) < count // 2:
+                slow.append(f"generate_{mode}({p!r}) after {len(vals)} values")
     for p in UNSAT_TRUE:
         vals, err = g.take(generate_true(p), 3)
         n += 1
